@@ -64,9 +64,9 @@ func init() {
 		},
 		NCases: func(tier string) int {
 			if tier == "thorough" {
-				return 1 + 5000
+				return 1 + 5000 + 1000
 			}
-			return 1 + 160
+			return 1 + 160 + 64
 		},
 		Run:              c13Run,
 		CrashIsViolation: true,
@@ -503,6 +503,10 @@ func c13Scenario(c *vk.Case, name string, fields []refmodel.Field) {
 func c13Run(c *vk.Case) {
 	if err := refmodel.SelfTest(); err != nil {
 		c.Inconclusive("reference model self-test failed: %v", err)
+		return
+	}
+	if base := map[string]int{"thorough": 1 + 5000}[c.Tier]; (c.Tier == "thorough" && c.Index >= base) || (c.Tier != "thorough" && c.Index >= 1+160) {
+		c13Multi(c)
 		return
 	}
 	r := c.R
